@@ -13,7 +13,7 @@ From FF Require Import Lib.Word Gen.Consts_kfmt.
 Import ListNotations.
 Local Open Scope Z_scope.
 
-Inductive panic := OOB | DivZero.
+Inductive panic := OOB | DivZero | NilDeref.
 Inductive outcome (A : Type) : Type := Ok (a : A) | Panic (p : panic) | OutOfFuel.
 Arguments Ok {A} a.
 Arguments Panic {A} p.
